@@ -10,7 +10,8 @@ PS_CONSTS = """  MaxExecDepth = 100
 
 
 def run_mbt(ctx, module, consts, label, base_heap="Heap0", invariants=("Emit", "Inv"),
-            simulate=None, depth=None, timeout=1500, outfile=None, workers=None, extra_cfg=""):
+            simulate=None, depth=None, timeout=1500, outfile=None, workers=None, extra_cfg="",
+            properties=()):
     """Run a generating configuration and replay its vectors into the library.
     Returns the harness summary."""
     outfile = outfile or (label + ".ndjson")
@@ -23,6 +24,8 @@ def run_mbt(ctx, module, consts, label, base_heap="Heap0", invariants=("Emit", "
     cfg += "INIT Init\nNEXT Next\n"
     for inv in invariants:
         cfg += "INVARIANT %s\n" % inv
+    for pr in properties:
+        cfg += "PROPERTY %s\n" % pr
     cfg += "CHECK_DEADLOCK FALSE\n" + extra_cfg
     d = ctx.specdir()
     for f in (outfile, basefile):
